@@ -1,7 +1,980 @@
 package main
 
-// Stage 2: meaning of emitted Go fragments (filled in below).
+// Stage 2 (DESIGN §3.4): the text emitted by a generator function (a Text with
+// holes, produced by stage 1 = symbolic execution of the real emitter) is parsed
+// with go/parser and given its meaning by a small symbolic interpreter, so that a
+// postcondition can say "the emitted code rejects x iff not spec(x)".
+
+import (
+	"fmt"
+	"go/ast"
+	goparser "go/parser"
+	"go/token"
+	"math/big"
+	"sort"
+	"strconv"
+	"strings"
+)
+
+// Values of the generated program's state.
+type GenStr struct {
+	Bytes, Runes, Matched *T
+}
+type GenSlice struct{ IsNil, Len *T }
+type GenArr struct {
+	Level, Target int
+	Leaf          Val
+	Len           *T
+}
+type GenNilable struct{ IsNil *T }
+type GenMap struct {
+	IsNil   *T
+	Key     string // rendered key of interest
+	keyText Val
+	Has     *T
+	VNil    *T
+}
+type GenErr struct{ NonNil *T }
+type GenObj struct{ Name string }
+type GenOpaque struct{ What string }
+type GenTuple []Val
+
+type Sigma struct {
+	Vars map[string]Val
+	Heap map[int]Val
+}
+
+// Fragment is an emitted text prepared for interpretation.
+type Fragment struct {
+	Src      string
+	Holes    map[string]Frag // placeholder -> hole
+	File     *ast.File
+	Fset     *token.FileSet
+	ParseErr string
+	Body     []ast.Stmt
+	Comments int
+}
+
+func holeName(k int, kind FragKind) string {
+	if kind == FNum {
+		return fmt.Sprintf("NUMx%dx", k)
+	}
+	return fmt.Sprintf("ATOMx%dx", k)
+}
+
+var fragCache = map[string]*Fragment{}
+
+// prepareFragment renders the text with placeholders and parses it as the
+// body of a function.
+func prepareFragment(t Text) *Fragment {
+	fr := &Fragment{Holes: map[string]Frag{}}
+	var sb strings.Builder
+	names := map[string]string{} // atom name / num term string -> placeholder
+	for _, f := range t.Frags {
+		switch f.Kind {
+		case FLit:
+			sb.WriteString(f.Lit)
+		case FAtom:
+			n, ok := names["a:"+f.Atom]
+			if !ok {
+				n = holeName(len(names), FAtom)
+				names["a:"+f.Atom] = n
+				fr.Holes[n] = f
+			}
+			sb.WriteString(n)
+		case FNum:
+			key := "n:" + f.Term.String() + ":" + f.GoType + ":" + string(f.Verb)
+			n, ok := names[key]
+			if !ok {
+				n = holeName(len(names), FNum)
+				names[key] = n
+				fr.Holes[n] = f
+			}
+			sb.WriteString(n)
+		}
+	}
+	// comment lines emitted through Emitter.Comment*: dropped (they are `// ...`)
+	var lines []string
+	for _, l := range strings.Split(sb.String(), "\n") {
+		if i := strings.Index(l, "\x00COMMENT "); i >= 0 {
+			fr.Comments++
+			continue
+		}
+		lines = append(lines, l)
+	}
+	body := strings.Join(lines, "\n")
+	fr.Src = body
+	if c, ok := fragCache[body]; ok {
+		cp := *c
+		cp.Holes = fr.Holes
+		return &cp
+	}
+	fr.Fset = token.NewFileSet()
+	wrapped := "package p\nfunc frag() error {\n" + body + "\nreturn nil\n}\n"
+	if strings.Contains(body, "func (") { // a whole method was emitted
+		wrapped = "package p\n" + body + "\n"
+	}
+	file, err := goparser.ParseFile(fr.Fset, "emitted.go", wrapped, goparser.SkipObjectResolution)
+	if err != nil {
+		fr.ParseErr = err.Error()
+		fragCache[body] = fr
+		return fr
+	}
+	fr.File = file
+	for _, d := range file.Decls {
+		if fd, ok := d.(*ast.FuncDecl); ok && fd.Body != nil {
+			fr.Body = fd.Body.List
+			if fd.Name.Name == "frag" && len(fr.Body) > 0 {
+				fr.Body = fr.Body[:len(fr.Body)-1] // our own trailing return nil
+			}
+		}
+	}
+	fragCache[body] = fr
+	return fr
+}
+
+// ---------------------------------------------------------------------------
+
+type genInterp struct {
+	fr      *Fragment
+	sig     *Sigma
+	pc      *T
+	rej     *T // a `return <non-nil error>` has been executed
+	acc     *T // a `return nil` has been executed
+	pan     *T // a run-time panic occurs
+	asg     map[string]*T
+	loops   []loopVar
+	errs    []string
+	fresh   func(prefix string, s Sort) *T
+	afterLp bool
+	num     numCtx
+	writes  []string // lvalues written, in order
+}
+
+type loopVar struct {
+	name string
+	over string // rendered expression ranged over
+}
+
+func (g *genInterp) fail(format string, args ...interface{}) {
+	g.errs = append(g.errs, fmt.Sprintf(format, args...))
+}
+
+func render(e ast.Expr) string {
+	switch x := e.(type) {
+	case *ast.Ident:
+		return x.Name
+	case *ast.SelectorExpr:
+		return render(x.X) + "." + x.Sel.Name
+	case *ast.IndexExpr:
+		return render(x.X) + "[" + render(x.Index) + "]"
+	case *ast.StarExpr:
+		return "*" + render(x.X)
+	case *ast.ParenExpr:
+		return "(" + render(x.X) + ")"
+	case *ast.BasicLit:
+		return x.Value
+	case *ast.CallExpr:
+		var as []string
+		for _, a := range x.Args {
+			as = append(as, render(a))
+		}
+		return render(x.Fun) + "(" + strings.Join(as, ", ") + ")"
+	case *ast.UnaryExpr:
+		return x.Op.String() + render(x.X)
+	case *ast.BinaryExpr:
+		return render(x.X) + " " + x.Op.String() + " " + render(x.Y)
+	}
+	return fmt.Sprintf("<%T>", e)
+}
+
+func (g *genInterp) panicIf(c *T) { g.pan = mkOr(g.pan, mkAnd(g.pc, c)) }
+
+func (g *genInterp) boolOf(v Val, e ast.Expr) *T {
+	t, ok := v.(*T)
+	if !ok || t.Sort != SBool {
+		g.fail("condition %s is not boolean (%T)", render(e), v)
+		return g.fresh("cond", SBool)
+	}
+	return t
+}
+
+func (g *genInterp) holeVal(name string) (Val, bool) {
+	h, ok := g.fr.Holes[name]
+	if !ok {
+		return nil, false
+	}
+	if h.Kind == FNum {
+		return h.Term, true
+	}
+	return GenOpaque{What: "atom " + h.Atom}, true
+}
+
+func (g *genInterp) eval(e ast.Expr) Val {
+	switch x := e.(type) {
+	case *ast.ParenExpr:
+		return g.eval(x.X)
+	case *ast.Ident:
+		switch x.Name {
+		case "nil":
+			return NilV{}
+		case "true":
+			return tTrue
+		case "false":
+			return tFalse
+		}
+		if v, ok := g.holeVal(x.Name); ok {
+			return v
+		}
+		if v, ok := g.sig.Vars[x.Name]; ok {
+			return v
+		}
+		g.fail("unbound identifier %s in emitted code", x.Name)
+		return GenOpaque{What: x.Name}
+	case *ast.BasicLit:
+		switch x.Kind {
+		case token.INT:
+			i, ok := new(big.Int).SetString(x.Value, 0)
+			if !ok {
+				g.fail("bad int literal %s", x.Value)
+				return mkInt(0)
+			}
+			return mkIntBig(i)
+		case token.FLOAT:
+			r, ok := new(big.Rat).SetString(x.Value)
+			if !ok {
+				g.fail("bad float literal %s", x.Value)
+				return mkReal(ratInt(0))
+			}
+			return mkReal(r)
+		case token.STRING:
+			s, err := strconv.Unquote(x.Value)
+			if err != nil {
+				s = x.Value
+			}
+			return GenOpaque{What: "string:" + s}
+		}
+	case *ast.SelectorExpr:
+		key := render(x)
+		if v, ok := g.sig.Vars[key]; ok {
+			return v
+		}
+		g.fail("unbound selector %s in emitted code", key)
+		return GenOpaque{What: key}
+	case *ast.StarExpr:
+		v := g.eval(x.X)
+		r, ok := v.(Ref)
+		if !ok {
+			g.fail("dereference of non-pointer %s", render(x.X))
+			return GenOpaque{What: render(x)}
+		}
+		if r.isNil() {
+			g.panicIf(tTrue)
+			return GenOpaque{What: "deref-nil"}
+		}
+		return g.sig.Heap[r.Cell]
+	case *ast.UnaryExpr:
+		switch x.Op {
+		case token.NOT:
+			return mkNot(g.boolOf(g.eval(x.X), x.X))
+		case token.SUB:
+			if t, ok := g.eval(x.X).(*T); ok {
+				if t.Sort == SInt {
+					return mkArith("-", mkInt(0), t)
+				}
+				return mkArith("-", mkReal(ratInt(0)), t)
+			}
+		case token.AND:
+			return GenOpaque{What: "&" + render(x.X)}
+		}
+		g.fail("unary %s not understood", x.Op)
+		return GenOpaque{What: render(x)}
+	case *ast.BinaryExpr:
+		return g.binary(x)
+	case *ast.IndexExpr:
+		return g.index(x)
+	case *ast.CallExpr:
+		return g.call(x)
+	}
+	g.fail("expression %T not understood", e)
+	return GenOpaque{What: render(e)}
+}
+
+func (g *genInterp) isNilCond(v Val) (*T, bool) {
+	switch x := v.(type) {
+	case Ref:
+		return mkBool(x.isNil()), true
+	case GenSlice:
+		return x.IsNil, true
+	case GenNilable:
+		return x.IsNil, true
+	case GenMap:
+		return x.IsNil, true
+	case GenErr:
+		return mkNot(x.NonNil), true
+	case GenArr:
+		return tFalse, true
+	case NilV:
+		return tTrue, true
+	}
+	return nil, false
+}
+
+func (g *genInterp) binary(x *ast.BinaryExpr) Val {
+	switch x.Op {
+	case token.LAND:
+		a := g.boolOf(g.eval(x.X), x.X)
+		save := g.pc
+		g.pc = mkAnd(g.pc, a)
+		b := g.boolOf(g.eval(x.Y), x.Y)
+		g.pc = save
+		return mkAnd(a, b)
+	case token.LOR:
+		a := g.boolOf(g.eval(x.X), x.X)
+		save := g.pc
+		g.pc = mkAnd(g.pc, mkNot(a))
+		b := g.boolOf(g.eval(x.Y), x.Y)
+		g.pc = save
+		return mkOr(a, b)
+	}
+	l, r := g.eval(x.X), g.eval(x.Y)
+	if _, ok := r.(NilV); ok || isNilV(l) {
+		if isNilV(l) {
+			l, r = r, l
+		}
+		c, ok := g.isNilCond(l)
+		if !ok {
+			g.fail("comparison of %s with nil not understood (%T)", render(x.X), l)
+			return g.fresh("nilcmp", SBool)
+		}
+		switch x.Op {
+		case token.EQL:
+			return c
+		case token.NEQ:
+			return mkNot(c)
+		}
+	}
+	lt, ok1 := l.(*T)
+	rt, ok2 := r.(*T)
+	isCmp := x.Op == token.LSS || x.Op == token.LEQ || x.Op == token.GTR || x.Op == token.GEQ || x.Op == token.EQL || x.Op == token.NEQ
+	if !ok1 || !ok2 || (lt.Sort == SBool) != (rt.Sort == SBool) {
+		if !g.pc.isFalse() { // dead code (e.g. behind a failed nil guard) needs no meaning
+			g.fail("operands of %s not understood (%T, %T)", render(x), l, r)
+		}
+		if isCmp {
+			return g.fresh("binop", SBool)
+		}
+		return GenOpaque{What: render(x)}
+	}
+	switch x.Op {
+	case token.LSS:
+		return mkCmp("<", lt, rt)
+	case token.LEQ:
+		return mkCmp("<=", lt, rt)
+	case token.GTR:
+		return mkCmp(">", lt, rt)
+	case token.GEQ:
+		return mkCmp(">=", lt, rt)
+	case token.EQL:
+		return mkEq(lt, rt)
+	case token.NEQ:
+		return mkNot(mkEq(lt, rt))
+	case token.REM:
+		if lt.Sort != SInt || rt.Sort != SInt {
+			g.fail("%% on non-integers")
+			return g.fresh("rem", SInt)
+		}
+		g.panicIf(mkEq(rt, mkInt(0)))
+		return &T{Op: "gomod", Args: []*T{lt, rt}, Sort: SInt}
+	case token.ADD:
+		return mkArith("+", lt, rt)
+	case token.SUB:
+		return mkArith("-", lt, rt)
+	}
+	g.fail("operator %s not understood", x.Op)
+	return g.fresh("binop", SBool)
+}
+
+func isNilV(v Val) bool { _, ok := v.(NilV); return ok }
+
+func (g *genInterp) index(x *ast.IndexExpr) Val {
+	base := g.eval(x.X)
+	switch b := base.(type) {
+	case GenArr:
+		// the index must be the loop variable ranging over this very expression
+		idx := render(x.Index)
+		over := render(x.X)
+		okIdx := false
+		for _, lv := range g.loops {
+			if lv.name == idx && lv.over == over {
+				okIdx = true
+			}
+		}
+		if !okIdx {
+			// not the loop variable ranging over this very expression: nothing
+			// bounds the index, so an out-of-range panic is possible
+			g.panicIf(g.fresh("index-out-of-range!"+idx, SBool))
+		}
+		if b.Level+1 == b.Target {
+			return b.Leaf
+		}
+		return GenArr{Level: b.Level + 1, Target: b.Target, Leaf: b.Leaf, Len: g.fresh("len", SInt)}
+	case GenMap:
+		key := render(x.Index)
+		if key == strconv.Quote(b.Key) || key == "`"+b.Key+"`" {
+			return GenTuple{GenNilable{IsNil: mkOr(mkNot(b.Has), b.VNil)}, mkAnd(mkNot(b.IsNil), b.Has)}
+		}
+		return GenTuple{GenNilable{IsNil: g.fresh("mapval", SBool)}, g.fresh("mapok", SBool)}
+	case GenSlice:
+		g.fail("indexing the target-level array %s", render(x.X))
+	}
+	g.fail("index expression %s not understood (%T)", render(x), base)
+	return GenOpaque{What: render(x)}
+}
+
+func (g *genInterp) lenOf(v Val, e ast.Expr) *T {
+	switch x := v.(type) {
+	case GenSlice:
+		return mkIte(x.IsNil, mkInt(0), x.Len)
+	case GenArr:
+		return x.Len
+	case GenStr:
+		return x.Bytes
+	}
+	g.fail("len(%s) not understood (%T)", render(e), v)
+	return g.fresh("len", SInt)
+}
+
+func (g *genInterp) call(x *ast.CallExpr) Val {
+	fn := render(x.Fun)
+	if at, ok := x.Fun.(*ast.ArrayType); ok && at.Len == nil && render(at.Elt) == "rune" && len(x.Args) == 1 {
+		if gs, ok := g.eval(x.Args[0]).(GenStr); ok {
+			return GenSlice{IsNil: tFalse, Len: gs.Runes}
+		}
+	}
+	switch fn {
+	case "utf8.RuneCountInString":
+		if gs, ok := g.eval(x.Args[0]).(GenStr); ok {
+			return gs.Runes
+		}
+	case "len":
+		return g.lenOf(g.eval(x.Args[0]), x.Args[0])
+	case "string":
+		return g.eval(x.Args[0])
+	case "fmt.Errorf", "errors.Join", "errors.New":
+		for _, a := range x.Args {
+			if _, isLit := a.(*ast.BasicLit); !isLit {
+				g.evalForEffect(a)
+			}
+		}
+		return GenErr{NonNil: tTrue}
+	case "fmt.Sprintf":
+		for _, a := range x.Args[1:] {
+			g.evalForEffect(a)
+		}
+		return GenOpaque{What: "string"}
+	case "regexp.MatchString":
+		s := g.eval(x.Args[1])
+		gs, ok := s.(GenStr)
+		if !ok {
+			g.fail("regexp.MatchString on %T", s)
+			return GenTuple{g.fresh("matched", SBool), GenErr{NonNil: g.fresh("reerr", SBool)}}
+		}
+		return GenTuple{gs.Matched, GenErr{NonNil: tFalse}}
+	case "math.Abs", "math.Mod":
+		var as []*T
+		for _, a := range x.Args {
+			t, ok := g.eval(a).(*T)
+			if !ok {
+				if !g.pc.isFalse() {
+					g.fail("math argument not numeric")
+				}
+				t = mkReal(ratInt(0))
+			}
+			as = append(as, toReal(t))
+		}
+		return &T{Op: "uf_" + strings.ReplaceAll(fn, ".", "_"), Args: as, Sort: SReal}
+	case "append":
+		base := g.eval(x.Args[0])
+		if sl, ok := base.(GenSlice); ok {
+			return GenSlice{IsNil: tFalse, Len: mkArith("+", mkIte(sl.IsNil, mkInt(0), sl.Len), mkInt(int64(len(x.Args)-1)))}
+		}
+	}
+	// method call on a local object: x_0.UnmarshalJSON(value)
+	if sel, ok := x.Fun.(*ast.SelectorExpr); ok {
+		if obj, ok := g.sig.Vars[render(sel.X)].(GenObj); ok && strings.HasPrefix(sel.Sel.Name, "Unmarshal") {
+			return GenErr{NonNil: mkVar("fail!"+obj.Name, SBool)}
+		}
+	}
+	g.fail("call %s not understood", fn)
+	return GenOpaque{What: render(x)}
+}
+
+func (g *genInterp) evalForEffect(e ast.Expr) {
+	switch e.(type) {
+	case *ast.BasicLit:
+		return
+	}
+	g.eval(e)
+}
+
+func (g *genInterp) assign(lhs ast.Expr, v Val, define bool) {
+	key := render(lhs)
+	if key == "_" {
+		return
+	}
+	g.writes = append(g.writes, key)
+	old, had := g.sig.Vars[key]
+	if !define && !had {
+		if _, isStar := lhs.(*ast.StarExpr); !isStar {
+			g.fail("assignment to unknown lvalue %s", key)
+		}
+	}
+	g.asg[key] = mkOr(orFalse(g.asg[key]), g.pc)
+	if had && !define && !g.pc.isTrue() {
+		// conditional update: keep a merged value where both are scalars
+		ot, ok1 := old.(*T)
+		nt, ok2 := v.(*T)
+		if ok1 && ok2 && ot.Sort == nt.Sort {
+			g.sig.Vars[key] = mkIte(g.pc, nt, ot)
+			return
+		}
+		if os, ok := old.(GenSlice); ok {
+			if ns, ok := v.(GenSlice); ok {
+				g.sig.Vars[key] = GenSlice{IsNil: mkIte(g.pc, ns.IsNil, os.IsNil), Len: mkIte(g.pc, ns.Len, os.Len)}
+				return
+			}
+		}
+		// non-scalar conditional assignment: the lvalue's later value is opaque
+		g.sig.Vars[key] = GenOpaque{What: "maybe-assigned " + key}
+		return
+	}
+	g.sig.Vars[key] = v
+}
+
+func orFalse(t *T) *T {
+	if t == nil {
+		return tFalse
+	}
+	return t
+}
+
+func (g *genInterp) stmts(list []ast.Stmt) {
+	for _, s := range list {
+		g.stmt(s)
+	}
+}
+
+func (g *genInterp) stmt(s ast.Stmt) {
+	switch x := s.(type) {
+	case *ast.BlockStmt:
+		g.stmts(x.List)
+	case *ast.IfStmt:
+		if x.Init != nil {
+			g.stmt(x.Init)
+		}
+		c := g.boolOf(g.eval(x.Cond), x.Cond)
+		save := g.pc
+		g.pc = mkAnd(save, c)
+		g.stmts(x.Body.List)
+		thenPC := g.pc
+		g.pc = mkAnd(save, mkNot(c))
+		if x.Else != nil {
+			g.stmt(x.Else)
+		}
+		g.pc = mkOr(thenPC, g.pc)
+	case *ast.ReturnStmt:
+		if len(x.Results) != 1 {
+			g.fail("return with %d results", len(x.Results))
+			g.pc = tFalse
+			return
+		}
+		v := g.eval(x.Results[0])
+		switch r := v.(type) {
+		case NilV:
+			g.acc = mkOr(g.acc, g.pc)
+		case GenErr:
+			g.rej = mkOr(g.rej, mkAnd(g.pc, r.NonNil))
+			g.acc = mkOr(g.acc, mkAnd(g.pc, mkNot(r.NonNil)))
+		default:
+			g.fail("return of %T not understood", v)
+		}
+		g.pc = tFalse
+	case *ast.AssignStmt:
+		if len(x.Rhs) == 1 && len(x.Lhs) == 2 {
+			v := g.eval(x.Rhs[0])
+			tu, ok := v.(GenTuple)
+			if !ok || len(tu) != 2 {
+				g.fail("two-value assignment from %s not understood", render(x.Rhs[0]))
+				return
+			}
+			g.assign(x.Lhs[0], tu[0], x.Tok == token.DEFINE)
+			g.assign(x.Lhs[1], tu[1], x.Tok == token.DEFINE)
+			return
+		}
+		if len(x.Rhs) != len(x.Lhs) {
+			g.fail("assignment shape not understood")
+			return
+		}
+		var vs []Val
+		for _, r := range x.Rhs {
+			vs = append(vs, g.evalRhs(r))
+		}
+		for i, l := range x.Lhs {
+			g.assign(l, vs[i], x.Tok == token.DEFINE)
+		}
+	case *ast.DeclStmt:
+		gd, ok := x.Decl.(*ast.GenDecl)
+		if !ok {
+			g.fail("declaration not understood")
+			return
+		}
+		for _, sp := range gd.Specs {
+			switch d := sp.(type) {
+			case *ast.ValueSpec:
+				for _, n := range d.Names {
+					var v Val = GenObj{Name: n.Name}
+					if d.Type != nil {
+						switch render(d.Type) {
+						case "[]error":
+							v = GenSlice{IsNil: tTrue, Len: mkInt(0)}
+						case "bool":
+							v = tFalse
+						case "map[string]interface{}":
+							v = GenObj{Name: n.Name}
+						}
+					}
+					g.sig.Vars[n.Name] = v
+				}
+			case *ast.TypeSpec:
+				g.sig.Vars["type:"+d.Name.Name] = GenOpaque{What: render(d.Type)}
+			}
+		}
+	case *ast.RangeStmt:
+		over := g.eval(x.X)
+		ln := g.lenOf(over, x.X)
+		save := g.pc
+		if x.Key != nil {
+			idx := g.fresh("idx", SInt)
+			g.sig.Vars[render(x.Key)] = idx
+			g.loops = append(g.loops, loopVar{name: render(x.Key), over: render(x.X)})
+			g.pc = mkAnd(save, mkCmp(">=", idx, mkInt(0)), mkCmp("<", idx, ln))
+		} else {
+			g.pc = mkAnd(save, mkCmp(">", ln, mkInt(0)))
+		}
+		if x.Value != nil {
+			g.fail("range with value variable not understood")
+		}
+		g.stmts(x.Body.List)
+		if x.Key != nil {
+			g.loops = g.loops[:len(g.loops)-1]
+		}
+		// generic-iteration semantics: after the loop the path condition is the
+		// one before it (over-approximation of the reachable states)
+		g.pc = save
+		g.afterLp = true
+	case *ast.ExprStmt:
+		g.evalForEffect(x.X)
+	case *ast.EmptyStmt:
+	default:
+		g.fail("statement %T not understood", s)
+	}
+}
+
+// evalRhs evaluates the right-hand side of an assignment; default-value
+// literals (composite literals, identifiers of constants, ...) are opaque.
+func (g *genInterp) evalRhs(e ast.Expr) Val {
+	switch x := e.(type) {
+	case *ast.CompositeLit, *ast.FuncLit:
+		return GenOpaque{What: "literal"}
+	case *ast.Ident:
+		if _, ok := g.sig.Vars[x.Name]; !ok && x.Name != "nil" && x.Name != "true" && x.Name != "false" {
+			if _, isHole := g.fr.Holes[x.Name]; !isHole {
+				return GenOpaque{What: "ident " + x.Name}
+			}
+		}
+	case *ast.CallExpr:
+		if render(x.Fun) != "append" && render(x.Fun) != "len" {
+			if _, ok := x.Fun.(*ast.SelectorExpr); !ok {
+				return GenOpaque{What: "conversion " + render(x.Fun)}
+			}
+		}
+	}
+	return g.eval(e)
+}
+
+type FragResult struct {
+	Rej, Acc, Pan, FallThrough *T
+	Asg                        map[string]*T
+	Errs                       []string
+	Writes                     []string
+}
+
+func interpret(fr *Fragment, sig *Sigma, fresh func(string, Sort) *T, num numCtx) *FragResult {
+	g := &genInterp{fr: fr, sig: sig, pc: tTrue, rej: tFalse, acc: tFalse, pan: tFalse, asg: map[string]*T{}, fresh: fresh, num: num}
+	if fr.ParseErr != "" {
+		return &FragResult{Rej: tFalse, Acc: tFalse, Pan: tFalse, FallThrough: tTrue, Errs: []string{"emitted text does not parse: " + fr.ParseErr}}
+	}
+	g.stmts(fr.Body)
+	return &FragResult{Rej: g.rej, Acc: g.acc, Pan: g.pan, FallThrough: g.pc, Asg: g.asg, Errs: g.errs, Writes: g.writes}
+}
+
+// ---------------------------------------------------------------------------
+// Contract-language builtins.
+
+type sigmaSpec struct {
+	binds []Val // alternating key (Text), value
+}
+
+func (c *EvalCtx) emittedText(v Val) Text {
+	t, ok := v.(Text)
+	if !ok {
+		specErr(nil, "emitted text expected, got %T", v)
+	}
+	return t
+}
+
+func (c *EvalCtx) buildSigma(v Val, fr *Fragment) *Sigma {
+	sp, ok := v.(sigmaSpec)
+	if !ok {
+		specErr(nil, "sigma(...) expected, got %T", v)
+	}
+	sg := &Sigma{Vars: map[string]Val{}, Heap: map[int]Val{}}
+	// atoms in keys are rendered with the fragment's placeholders
+	ren := func(t Text) string {
+		var sb strings.Builder
+		for _, f := range t.Frags {
+			switch f.Kind {
+			case FLit:
+				sb.WriteString(f.Lit)
+			case FAtom:
+				found := ""
+				for name, h := range fr.Holes {
+					if h.Kind == FAtom && h.Atom == f.Atom {
+						found = name
+					}
+				}
+				if found == "" {
+					found = "ABSENTx" + sanitize(f.Atom)
+				}
+				sb.WriteString(found)
+			}
+		}
+		return sb.String()
+	}
+	for i := 0; i+1 < len(sp.binds); i += 2 {
+		k, ok := sp.binds[i].(Text)
+		if !ok {
+			specErr(nil, "sigma key must be a string")
+		}
+		val := sp.binds[i+1]
+		if gm, ok := val.(GenMap); ok {
+			if kt, ok := gm.keyText.(Text); ok {
+				gm.Key = ren(kt)
+			}
+			val = gm
+		}
+		if r, ok := val.(Ref); ok && !r.isNil() {
+			sg.Heap[r.Cell] = c.st.load(r)
+		}
+		sg.Vars[ren(k)] = val
+	}
+	return sg
+}
+
+func (c *EvalCtx) runFragment(n *Node) (*Fragment, *FragResult) {
+	em := c.emittedText(c.eval(n.Kids[0]))
+	fr := prepareFragment(em)
+	var sv Val = sigmaSpec{}
+	if len(n.Kids) > 1 {
+		sv = c.eval(n.Kids[1])
+	}
+	sg := c.buildSigma(sv, fr)
+	seq := 0
+	fresh := func(p string, s Sort) *T {
+		seq++
+		return mkVar(fmt.Sprintf("g2!%s!%s!%d", sanitize(c.origin), p, seq), s)
+	}
+	res := interpret(fr, sg, fresh, c.num())
+	return fr, res
+}
 
 func (c *EvalCtx) stage2Builtin(n *Node) (Val, bool) {
+	switch n.Name {
+	case "emitted":
+		// emitted(out): the text accumulated in the emitter's builder
+		r, ok := c.eval(n.Kids[0]).(Ref)
+		if !ok || r.isNil() {
+			specErr(n, "emitted(out): emitter pointer expected")
+		}
+		em := c.st.load(r).(*Agg)
+		i := structFieldIndex(em.Typ, "sb")
+		t, _ := c.st.Ghost[sbKey(r.sub(i))].(Text)
+		return t, true
+	case "sigma":
+		var sp sigmaSpec
+		for _, k := range n.Kids {
+			sp.binds = append(sp.binds, c.eval(k))
+		}
+		return sp, true
+	case "ptr_to":
+		v := c.eval(n.Kids[0])
+		return c.st.alloc(v), true
+	case "nil_ptr":
+		return Ref{}, true
+	case "gstr":
+		return GenStr{Bytes: c.evalTerm(n.Kids[0]), Runes: c.evalTerm(n.Kids[1]), Matched: c.evalBool(n.Kids[2])}, true
+	case "garr":
+		k, ok := c.evalTerm(n.Kids[0]).intVal()
+		if !ok {
+			specErr(n, "garr: concrete depth expected")
+		}
+		leaf := GenSlice{IsNil: c.evalBool(n.Kids[1]), Len: c.evalTerm(n.Kids[2])}
+		if k <= 1 {
+			return leaf, true
+		}
+		return GenArr{Level: 1, Target: int(k), Leaf: leaf, Len: mkVar("g2!len!"+sanitize(c.origin), SInt)}, true
+	case "gnilable":
+		k, ok := c.evalTerm(n.Kids[0]).intVal()
+		if !ok {
+			specErr(n, "gnilable: concrete depth expected")
+		}
+		leaf := GenNilable{IsNil: c.evalBool(n.Kids[1])}
+		if k <= 0 {
+			return leaf, true
+		}
+		return GenArr{Level: 0, Target: int(k), Leaf: leaf, Len: mkVar("g2!len!"+sanitize(c.origin), SInt)}, true
+	case "graw":
+		return GenMap{IsNil: c.evalBool(n.Kids[0]), keyText: c.eval(n.Kids[1]), Has: c.evalBool(n.Kids[2]), VNil: c.evalBool(n.Kids[3])}, true
+	case "gobj":
+		return GenObj{Name: "obj"}, true
+	case "runes_of", "bytes_of", "matched_of":
+		gs, ok := c.eval(n.Kids[0]).(GenStr)
+		if !ok {
+			specErr(n, "%s: generated string expected", n.Name)
+		}
+		switch n.Name {
+		case "runes_of":
+			return gs.Runes, true
+		case "bytes_of":
+			return gs.Bytes, true
+		}
+		return gs.Matched, true
+	case "len_of", "isnil_of":
+		gs, ok := c.eval(n.Kids[0]).(GenSlice)
+		if !ok {
+			specErr(n, "%s: generated array expected", n.Name)
+		}
+		if n.Name == "len_of" {
+			return gs.Len, true
+		}
+		return gs.IsNil, true
+	case "rejects", "panics", "accepts_early", "falls_through":
+		_, res := c.runFragment(n)
+		c.noteFragErrs(n, res)
+		switch n.Name {
+		case "rejects":
+			return res.Rej, true
+		case "panics":
+			return res.Pan, true
+		case "accepts_early":
+			return res.Acc, true
+		}
+		return res.FallThrough, true
+	case "assigned":
+		_, res := c.runFragment(n)
+		c.noteFragErrs(n, res)
+		key := c.renderKey(n, 2)
+		return orFalse(res.Asg[key]), true
+	case "understood":
+		// the interpreter gave every construct of the fragment a meaning
+		_, res := c.runFragment(n)
+		return mkBool(len(res.Errs) == 0), true
+	case "parses":
+		fr := prepareFragment(c.emittedText(c.eval(n.Kids[0])))
+		return mkBool(fr.ParseErr == ""), true
+	case "mentions":
+		fr := prepareFragment(c.emittedText(c.eval(n.Kids[0])))
+		name := c.eval(n.Kids[1]).(Text)
+		want, _ := name.concrete()
+		found := false
+		if fr.File != nil {
+			ast.Inspect(fr.File, func(nd ast.Node) bool {
+				if id, ok := nd.(*ast.Ident); ok && id.Name == want {
+					found = true
+				}
+				return true
+			})
+		}
+		return mkBool(found), true
+	case "uses_pkg":
+		fr := prepareFragment(c.emittedText(c.eval(n.Kids[0])))
+		name := c.eval(n.Kids[1]).(Text)
+		want, _ := name.concrete()
+		found := false
+		if fr.File != nil {
+			ast.Inspect(fr.File, func(nd ast.Node) bool {
+				if se, ok := nd.(*ast.SelectorExpr); ok {
+					if id, ok := se.X.(*ast.Ident); ok && id.Name == want {
+						found = true
+					}
+				}
+				return true
+			})
+		}
+		return mkBool(found), true
+	case "branch_failed":
+		// branch_failed(fieldName, i): the i-th anyOf branch unmarshaler failed
+		t := c.eval(n.Kids[0]).(Text)
+		i, _ := c.evalTerm(n.Kids[1]).intVal()
+		fr := prepareFragment(c.emittedText(c.eval(n.Kids[2])))
+		name := ""
+		for _, f := range t.Frags {
+			if f.Kind == FAtom {
+				for ph, h := range fr.Holes {
+					if h.Kind == FAtom && h.Atom == f.Atom {
+						name += ph
+					}
+				}
+			} else {
+				name += f.Lit
+			}
+		}
+		return mkVar(fmt.Sprintf("fail!%s_%d", name, i), SBool), true
+	}
 	return nil, false
+}
+
+func (c *EvalCtx) renderKey(n *Node, idx int) string {
+	em := c.emittedText(c.eval(n.Kids[0]))
+	fr := prepareFragment(em)
+	k := c.eval(n.Kids[idx]).(Text)
+	var sb strings.Builder
+	for _, f := range k.Frags {
+		switch f.Kind {
+		case FLit:
+			sb.WriteString(f.Lit)
+		case FAtom:
+			for name, h := range fr.Holes {
+				if h.Kind == FAtom && h.Atom == f.Atom {
+					sb.WriteString(name)
+				}
+			}
+		}
+	}
+	return sb.String()
+}
+
+// noteFragErrs: constructs the interpreter could not give a meaning make the
+// clause undecided (an execPanic), never silently true.
+func (c *EvalCtx) noteFragErrs(n *Node, res *FragResult) {
+	if len(res.Errs) > 0 {
+		es := append([]string{}, res.Errs...)
+		sort.Strings(es)
+		if c.fragErrs != nil {
+			*c.fragErrs = append(*c.fragErrs, es...)
+			return
+		}
+		specErr(n, "stage 2: %s", strings.Join(es, "; "))
+	}
 }
